@@ -3,6 +3,7 @@ package main
 // Translation of typed spec expressions (overlay AST) to SMT terms.
 
 import (
+	"regexp"
 	"fmt"
 	"go/ast"
 	"go/constant"
@@ -197,6 +198,33 @@ func (e *SpecEnv) eval(x ast.Expr) Val {
 		}
 		e.fail(x, "unsupported index base type %s", base.T)
 	case *ast.SliceExpr:
+		if at, ok := e.typeOf(x.X).Underlying().(*types.Array); ok {
+			// slice of an array field reached through a pointer: p.f.g[lo:hi]
+			path := []string{}
+			var cur ast.Expr = x.X
+			for {
+				se, ok := cur.(*ast.SelectorExpr)
+				if !ok {
+					e.fail(x, "slice of an array that is not a field path below a pointer")
+				}
+				path = append([]string{se.Sel.Name}, path...)
+				bt := e.typeOf(se.X)
+				if pt, ok := bt.Underlying().(*types.Pointer); ok {
+					base := e.eval(se.X)
+					k := arrFieldIndex(structKey(pt.Elem()), strings.Join(path, "."))
+					n := bvLit(64, uint64(at.Len()))
+					lo, hi := bvLit(64, 0), n
+					if x.Low != nil {
+						lo = e.eval(x.Low).L[0]
+					}
+					if x.High != nil {
+						hi = e.eval(x.High).L[0]
+					}
+					return Val{T: types.NewSlice(at.Elem()), L: []string{aidOf(base.L[0], k), lo, app("bvsub", hi, lo), app("bvsub", n, lo)}}
+				}
+				cur = se.X
+			}
+		}
 		base := e.eval(x.X)
 		st, ok := base.T.Underlying().(*types.Slice)
 		if !ok {
@@ -381,8 +409,12 @@ func (e *SpecEnv) evalCall(x *ast.CallExpr) Val {
 						q := vc.fresh("q_abs")
 						nb := strings.ReplaceAll(imp(rng, body), idx, q)
 						nb = replaceSym(nb, bv, "(bvsub "+q+" "+off+")")
+						vc.rangeForms(q, arr, off, lo, hi)
 						return Val{T: types.Typ[types.Bool], L: []string{fmt.Sprintf("(forall ((%s %s)) (! %s :pattern ((select %s %s))))", q, sBV64, nb, arr, q)}}
 					}
+				}
+				if arr, idx, ok := splitSelect(pat); ok && idx == bv {
+					vc.rangeForms(bv, arr, "", lo, hi)
 				}
 				return Val{T: types.Typ[types.Bool], L: []string{fmt.Sprintf("(forall ((%s %s)) (! %s :pattern (%s)))", bv, sBV64, imp(rng, body), pat)}}
 			}
@@ -1090,4 +1122,54 @@ func replaceSym(text, sym, with string) string {
 		i = end
 	}
 	return b.String()
+}
+
+// rangeForms gives the solver the equivalent forms of a range guard at every
+// instance of a quantifier over array index q (pattern (select arr q)). Each
+// added formula is a tautology of 64-bit arithmetic (checked once by the
+// self-test, see selftest/range_forms.smt2), so it can be assumed anywhere:
+//   relative index k = q - off (off == "" means k = q), guard lo <=s k <s hi
+//   (1) lo <=s hi                     ==> (guard <=> (k-lo) <u (hi-lo))
+//   (2) 0<=off<2^40, |lo|,|hi|<2^40   ==> (guard <=> off+lo <=s q <s off+hi)
+// Comparisons of sums are hard for bit-blasting; with the forms side by side
+// most range reasoning becomes propositional.
+func (vc *VC) rangeForms(q, arr, off, lo, hi string) {
+	if vc.noRangeForms || reBoundVar.MatchString(arr+" "+off+" "+lo+" "+hi) {
+		return // not closed: the range mentions an enclosing bound variable
+	}
+	key := arr + "|" + off + "|" + lo + "|" + hi
+	if vc.rangeDone == nil {
+		vc.rangeDone = map[string]bool{}
+	}
+	if vc.rangeDone[key] {
+		return
+	}
+	vc.rangeDone[key] = true
+	qq := vc.fresh("q_rf")
+	k := qq
+	if off != "" {
+		k = vc.linNorm(app("bvsub", qq, off), 64)
+	}
+	guard := and(app("bvsle", lo, k), app("bvslt", k, hi))
+	var forms []string
+	ud := app("bvult", vc.linNorm(app("bvsub", k, lo), 64), vc.linNorm(app("bvsub", hi, lo), 64))
+	forms = append(forms, imp(app("bvsle", lo, hi), eq(guard, ud)))
+	if off != "" {
+		small := func(t string) string {
+			return and(app("bvslt", bvLit(64, (1<<64)-(1<<40)), t), app("bvslt", t, bvLit(64, 1<<40)))
+		}
+		direct := and(app("bvsle", vc.linNorm(app("bvadd", off, lo), 64), qq), app("bvslt", qq, vc.linNorm(app("bvadd", off, hi), 64)))
+		forms = append(forms, imp(and(app("bvsle", bvLit(64, 0), off), app("bvslt", off, bvLit(64, 1<<40)), small(lo), small(hi)), eq(guard, direct)))
+	}
+	vc.script = append(vc.script, fmt.Sprintf("(assert (forall ((%s %s)) (! %s :pattern ((select %s %s)))))", qq, sBV64, and(forms...), arr, qq))
+}
+
+var reBoundVar = regexp.MustCompile(`q_[A-Za-z0-9_]*!\d+`)
+
+// rangeEquiv: for a copied range [off, off+n): (0<=off<2^40 and 0<=n<2^40) ==>
+// (off <=s q <s off+n  <=>  (q-off) <u n). A tautology of 64-bit arithmetic.
+func rangeEquiv(q, off, n string) string {
+	bounds := and(app("bvsle", bvLit(64, 0), off), app("bvslt", off, bvLit(64, 1<<40)), app("bvsle", bvLit(64, 0), n), app("bvslt", n, bvLit(64, 1<<40)))
+	direct := and(app("bvsle", off, q), app("bvslt", q, app("bvadd", off, n)))
+	return imp(bounds, eq(direct, app("bvult", app("bvsub", q, off), n)))
 }
